@@ -272,3 +272,30 @@ func (t *T) FieldByAvroName(name string) (int, *F) {
 }
 
 var _ = refavro.Equal
+
+// Permute returns a copy of t in which the fields of every struct are in a random order (tags, options and
+// field types unchanged): the Go layout no longer follows the schema's field order.
+func Permute(r *rand.Rand, t *T) *T {
+	if t == nil {
+		return nil
+	}
+	switch t.K {
+	case KStruct:
+		if t.RTStatic != nil {
+			return t
+		}
+		n := &T{K: KStruct, Name: t.Name}
+		for _, f := range t.Fields {
+			cf := *f
+			cf.T = Permute(r, f.T)
+			n.Fields = append(n.Fields, &cf)
+		}
+		r.Shuffle(len(n.Fields), func(i, j int) { n.Fields[i], n.Fields[j] = n.Fields[j], n.Fields[i] })
+		return n
+	case KSlice, KMap, KPtr:
+		return &T{K: t.K, Elem: Permute(r, t.Elem)}
+	case KArray:
+		return &T{K: KArray, N: t.N, Elem: Permute(r, t.Elem)}
+	}
+	return &T{K: t.K, Named: t.Named, N: t.N}
+}
